@@ -334,6 +334,7 @@ func assumptions() {
 	stats.Assume("all tolerances are relative to the case (size = larger box side, noise = 64*2^-52*largest |coordinate|): output vertices within 1e-9*size+noise of the box; areas within 1e-9*boxArea+8*noise*(w+h); query points farther than 1e-6*size+4*noise from the box sides, the input boundary and the output boundary; coordinates finite, |v| up to about 2e19 (2e7 offsets x 2^40), offset/size up to about 1e8")
 	stats.Assume("input rings are simple (star-shaped by construction or lattice points sorted by angle around an interior centre), outer rings wound as requested, holes wound the other way, holes inside their outer ring and pairwise disjoint, polygons of a multi-polygon pairwise disjoint or nested island-in-hole")
 	stats.Assume("random generation keeps 1e-9*size+noise away from degenerate contact (ring vertex on the box boundary, ring edge through a box corner); exact degenerate contact is decided on the deterministic grid corpus against the list in known_findings_C16.json")
+	stats.Assume("two crossings of the box boundary are never closer to each other than 256*2^-52*largest |coordinate| (features below the rounding granularity of the coordinates are not generated)")
 	stats.Assume("a region that contains the whole box while no boundary enters the open box is outside the stated domain (smartclip cannot know the side) and is skipped")
 	stats.Assume("open input: start and end strictly outside the box, or exactly on the box boundary (path cut at a crossing, no corner, going straight into / out of the open box); entries and exits must alternate around the box, otherwise the completion is undefined and the case is skipped")
 	stats.Assume("output polygons are taken to be interior-disjoint (the package promises simple OGC geometries): the summed area of the output polygons must equal the area of region ∩ box")
@@ -432,6 +433,9 @@ func runCase(rt *rapid.T, test string, c Case, group string) {
 			if oc.outPolys > 1 {
 				stats.Class("output:2+ polygons")
 			}
+			for _, n := range oc.notes {
+				stats.Class("layout-note:" + n)
+			}
 			if oc.holeNotFirst {
 				stats.Class("output:2+ polygons and a hole in a polygon other than the first (" + c.Kind + ")")
 			}
@@ -504,7 +508,7 @@ func genRing(rt *rapid.T, emit func(c Case, group string)) {
 
 func TestPropRing(t *testing.T) {
 	assumptions()
-	stats.Check(t, 130000, 2500000, func(rt *rapid.T) {
+	stats.Check(t, 110000, 2500000, func(rt *rapid.T) {
 		genRing(rt, func(c Case, group string) { runCase(rt, "TestPropRing", c, group) })
 	})
 }
